@@ -5,6 +5,7 @@ cd "$(dirname "$0")"
 export GOFLAGS=-mod=mod GOPROXY=off GOSUMDB=off GOTOOLCHAIN=local
 command -v tlc >/dev/null || { echo "tlc not on PATH"; exit 1; }
 command -v go >/dev/null || { echo "go not on PATH"; exit 1; }
+command -v apalache-mc >/dev/null || echo "note: apalache-mc not on PATH (only the thorough tier of C13 uses it)"
 cp /repo/go.sum harness/go.sum 2>/dev/null || true
 tmp=$(mktemp -d)
 (cd harness && go build -tags verif -o "$tmp/verifharness" .)
